@@ -301,6 +301,9 @@ func (env *SpecEnv) tryLookup(name string) (*Val, bool) {
 		return v, true
 	}
 	if env.fr != nil {
+		if g, ok := env.fr.ghosts[name]; ok {
+			return g, true
+		}
 		if v := env.fr.lookupLocal(name, env.block, env.idx, env.curHeap(), env.inOld || env.entryParams); v != nil {
 			return v, true
 		}
@@ -416,6 +419,7 @@ func (env *SpecEnv) field(v *Val, idx int) *Val {
 			env.fail("cannot select field %d of %s", idx, v.Typ)
 		}
 		r := vc.loadPtr(p, h)
+		env.wfRef(r, h)
 		return r
 	}
 	stT, st := structOf(v.Typ)
@@ -439,17 +443,15 @@ func (env *SpecEnv) index(v, i *Val) *Val {
 			return
 		}
 		// offset + variable: still a usable trigger
-		if strings.HasPrefix(idx, "(+ ") {
-			parts := strings.Fields(strings.TrimSuffix(idx[3:], ")"))
-			if len(parts) == 2 && env.qvars[parts[1]] && !strings.Contains(parts[0], "(") {
-				env.pats = append(env.pats, t)
-			}
-		}
 	}
 	switch t := v.Typ.Underlying().(type) {
 	case *types.Slice:
 		sp := vc.slice(v)
-		r := sel(sel(h.Get(vc.memName(t.Elem())), sp.Base), add(sp.Off, it))
+		inner := sel(h.Get(vc.memName(t.Elem())), sp.Base)
+		if len(env.qvars) > 0 && !strings.Contains(inner, "!q") {
+			vc.hint(inner, "(Array Int "+vc.sortOf(t.Elem())+")")
+		}
+		r := sel(inner, add(sp.Off, it))
 		note(r, add(sp.Off, it))
 		return &Val{T: r, Typ: t.Elem()}
 	case *types.Array:
@@ -631,6 +633,26 @@ func (env *SpecEnv) call(x *CallE) *Val {
 	case "allocated":
 		argn(1)
 		return boolVal(sel(env.curHeap().Get("$alloc"), env.refOf(env.eval(x.Args[0]))))
+	case "hassuffix", "hasprefix":
+		argn(2)
+		a, b := vc.term(env.eval(x.Args[0])), vc.term(env.eval(x.Args[1]))
+		vc.needStrCat()
+		if fname == "hassuffix" {
+			return boolVal(strSuffix(a, b))
+		}
+		return boolVal(strPrefix(a, b))
+	case "containschar":
+		argn(2)
+		a, c := vc.term(env.eval(x.Args[0])), vc.term(env.eval(x.Args[1]))
+		return boolVal(fmt.Sprintf("(exists ((i Int)) (and (<= 0 i) (< i (str-len %s)) (= (str-at %s i) %s)))", a, a, c))
+	case "lower":
+		argn(1)
+		vc.needStrLower()
+		return &Val{T: "(str-lower " + vc.term(env.eval(x.Args[0])) + ")", Typ: types.Typ[types.String]}
+	case "zeros":
+		// zeros(): the all-zero byte array
+		argn(0)
+		return &Val{T: "((as const (Array Int Int)) 0)", Typ: types.NewArray(types.Typ[types.Byte], 0)}
 	case "arr":
 		// arr(b): the backing array of a byte slice / array (indices are absolute)
 		argn(1)
@@ -676,6 +698,33 @@ func (env *SpecEnv) call(x *CallE) *Val {
 	}
 	env.fail("unknown spec function %s", fname)
 	return nil
+}
+
+// hint makes a ground array term known to the solver so that frame axioms
+// (triggered on select of the new heap version) get instantiated for it.
+func (vc *VC) hint(t Term, sortS string) {
+	if vc.hinted[t] {
+		return
+	}
+	vc.hinted[t] = true
+	fn := "hint_" + mangle(sortS)
+	vc.S.DeclareRaw("fn:"+fn, "(declare-fun "+fn+" ("+sortS+") Bool)")
+	vc.S.Assert("(" + fn + " " + t + ")")
+}
+
+// wfRef: references read from the heap are nil or allocated (well-formed heap).
+func (env *SpecEnv) wfRef(r *Val, h *Heap) {
+	vc := env.VC()
+	if r.Typ == nil || isOpaqueSpecial(r.Typ) || len(env.qvars) > 0 {
+		return
+	}
+	switch r.Typ.Underlying().(type) {
+	case *types.Pointer, *types.Map:
+		vc.S.Assert(or(eq(r.T, "0"), sel(h.Get("$alloc"), r.T)))
+	case *types.Slice:
+		b := vc.slice(r).Base
+		vc.S.Assert(or(eq(b, "0"), sel(h.Get("$alloc"), b)))
+	}
 }
 
 // ghostFieldPtr locates a declared ghost field of the object v points to.
